@@ -1358,6 +1358,28 @@ func (x *sealedScn) runFlow() {
 	if sc.Params {
 		params = x.state("params")
 	}
+	if sc.Flow == world.FlowWrapper {
+		// a third node registers through the wrapping flow and then once more with a fresh nonce (it lost
+		// its credentials and started over with the same certificate key). On back ends that overwrite,
+		// the record is replaced; the store-once back end refuses the second one. Either way nothing of
+		// what is handed to storage may be in clear. The node is not used afterwards.
+		if C, _, err := x.enroll(srv, world.FlowWrapper, "nodeC", nil, nil, params, nil); err == nil && C != nil {
+			again := proto.Clone(C.creds).(*types.NodeCredentials)
+			again.RegistrationNonce = world.RandBytes(nodeenrollment.NonceSize)
+			again.CertificateBundles = nil
+			if req, rerr := again.CreateFetchNodeCredentialsRequest(x.ctx, nodeenrollment.WithRegistrationWrapper(srv.rw)); rerr == nil {
+				_, ferr := registration.FetchNodeCredentials(x.ctx, srv.side.store, req, srv.opts()...)
+				r.Count(fmt.Sprintf("flow_step:wrapping-flow-re-registration(refused=%v)", ferr != nil), 1)
+				if m, lerr := sealedLibLoad(x.ctx, srv.side.inner, sealedNI, C.keyID, srv.side.opts()...); lerr == nil {
+					x.secretsOfInfo(m.(*types.NodeInformation))
+				}
+			}
+		} else if err != nil {
+			fail("enroll C (wrapper)", err)
+			return
+		}
+		rollover()
+	}
 	var A, B *sealedNode
 	var niA, niB *types.NodeInformation
 	if sc.Flow == world.FlowRewrapped {
